@@ -200,3 +200,29 @@ def _null_polarity(b):
                 if r and r[0] and r[0][0] == 'call':
                     return '%s==%s' % (U.callee_name(r[0][2]), r[1])
     return None
+
+
+# pointer kinds whose raw pointer can coincide for the SAME allocation although their reference counts differ
+# (trusted facts about alloc: Arc::as_ptr(&a) == Weak::as_ptr(&Arc::downgrade(&a)); likewise Rc / rc::Weak)
+COUNT_DOMAIN = {
+    'std::sync::Arc<T>': ('arc', 'strong'), 'std::sync::Weak<T>': ('arc', 'weak'),
+    'std::rc::Rc<T>': ('rc', 'strong'), 'std::rc::Weak<T>': ('rc', 'weak'),
+}
+
+
+def rule_kind_disjoint(fx, col):
+    """C12 / C15: debts are keyed by the bare pointer value (PAY-CAS). Two storable pointer kinds whose raw pointers can be
+    equal for one allocation but whose inc/dec move different counters can pay each other's debts with the wrong count."""
+    impls = _refcnt_impls(fx)
+    doms = {}
+    for st in impls:
+        d = COUNT_DOMAIN.get(st)
+        if d:
+            doms.setdefault(d[0], set()).add(d[1])
+    any_family = False
+    for fam, counters in sorted(doms.items()):
+        any_family = True
+        col.add('KIND-DISJOINT', '%s family|one counter per address' % fam, len(counters) == 1,
+                'storable kinds of the %s family use the counters %s for the same raw pointer; a writer of one kind pays the debts of the other '
+                'with the wrong counter (the debt slots hold only the address)' % (fam, sorted(counters)))
+    col.anchor('KIND-DISJOINT', 'RefCnt impls for std pointer kinds', any_family)
